@@ -90,7 +90,7 @@ func e2eUniverse(arch string) []*synthrepo.Pkg {
 	}
 	return []*synthrepo.Pkg{
 		mk(&synthrepo.Pkg{Name: "baselayout", Version: "20230201-r0", Files: []synthrepo.File{e2eDir("etc"),
-			e2eReg("etc/os-release", "ID=verif\nNAME=\"Verif Linux\"\nPRETTY_NAME=\"Verif Linux (e2e)\"\nVERSION_ID=20230201\n")}}),
+			e2eReg("etc/os-release", "# os-release of the e2e universe\r\nID=verif\nNAME=\"Verif Linux\"\n\nPRETTY_NAME=\"Verif Linux (e2e)\"\nVERSION_ID=1\nVERSION_ID=\"20230201\"\r\nHOME_URL=https://example.com/?a=b")}}),
 		mk(&synthrepo.Pkg{Name: "musl", Version: "1.2.4_git20230717-r1"}),
 		mk(&synthrepo.Pkg{Name: "lib+x", Version: "2.0_rc1-r0", Origin: "libx", Files: append(append([]synthrepo.File{}, sbomDirs...),
 			sbomFile("lib+x-2.0_rc1.spdx.json", &docT{Pkgs: []pkgT{us}, Desc: []string{us.ID}, Lics: [][2]string{own}}))}),
@@ -324,16 +324,21 @@ func readBlob(layout string, d ociDesc, what string, w e2eWorld) ([]byte, string
 }
 
 type e2eImage struct {
-	Arch       string `json:"oci_architecture"`
-	ArchString string `json:"architecture_string"` // types.Architecture.String(): amd64, arm64, arm/v7, ...
-	APKArch    string `json:"apk_architecture"`
-	Digest     string `json:"recomputed_image_digest"`
-	In         genIn  `json:"input_from_artifacts"`
-	Obs        obsT   `json:"observed_sbom"`
+	Arch       string  `json:"oci_architecture"`
+	ArchString string  `json:"architecture_string"` // types.Architecture.String(): amd64, arm64, arm/v7, ...
+	APKArch    string  `json:"apk_architecture"`
+	OSRelease  *string `json:"os_release,omitempty"` // content of etc/os-release in the flattened image; the Coq model parses it
+	Digest     string  `json:"recomputed_image_digest"`
+	In         genIn   `json:"input_from_artifacts"`
+	Obs        obsT    `json:"observed_sbom"`
 }
 
 // what one architecture's build produced, as Model/SbomProv.v's record
-func galBuilt(g genIn) string {
+func galBuilt(g genIn, osRelease *string) string {
+	osr := "None"
+	if osRelease != nil {
+		osr = "(Some " + gal.Str(*osRelease) + ")"
+	}
 	ls := make([]string, len(g.Layers))
 	for i, l := range g.Layers {
 		ls[i] = galHash(l)
@@ -354,7 +359,7 @@ func galBuilt(g genIn) string {
 		fs[i] = gal.Pair(gal.Str(e.Key), v)
 	}
 	return fmt.Sprintf("{| b_layers := %s; b_digest := %s; b_installed := %s; b_version_id := %s; b_vcs := %s; b_fs := %s |}",
-		gal.List(ls), galHash(hashT{"sha256", strings.TrimPrefix(g.Image, "sha256:")}), gal.List(as), gal.Str(g.OSVer), gal.Str(g.VCS), gal.List(fs))
+		gal.List(ls), galHash(hashT{"sha256", strings.TrimPrefix(g.Image, "sha256:")}), gal.List(as), "(release_version_of "+osr+")", gal.Str(g.VCS), gal.List(fs))
 }
 
 func readSBOM(p string) obsT {
@@ -479,6 +484,11 @@ func e2eStage(out string, seed uint64, tier string) error {
 				break
 			}
 			g.OSVer = osVersion(fsys)
+			var osRelease *string
+			if n, ok := fsys["etc/os-release"]; ok && !n.dir {
+				c := string(n.data)
+				osRelease = &c
+			}
 			g.Apks = e2eParseInstalled(string(fsys["lib/apk/db/installed"].data))
 			var keys []string
 			for p := range fsys {
@@ -508,7 +518,7 @@ func e2eStage(out string, seed uint64, tier string) error {
 			if md.Platform.Variant != "" {
 				archStr += "/" + md.Platform.Variant
 			}
-			imgs = append(imgs, e2eImage{Arch: md.Platform.Architecture, ArchString: archStr, APKArch: apkArch, Digest: g.Image, In: g,
+			imgs = append(imgs, e2eImage{Arch: md.Platform.Architecture, ArchString: archStr, APKArch: apkArch, OSRelease: osRelease, Digest: g.Image, In: g,
 				Obs: readSBOM(filepath.Join(sboms, "sbom-"+apkArch+".spdx.json"))})
 		}
 		if bad {
@@ -530,7 +540,7 @@ func e2eStage(out string, seed uint64, tier string) error {
 			if im.Obs.Kind == 0 {
 				lics = im.Obs.Doc.Lics
 			}
-			w.Add(gal.Case{Term: fmt.Sprintf("(EImg %s %s %s %s)", galBuilt(im.In), galLfs(im.In), galObs(im.Obs), galLics(lics)),
+			w.Add(gal.Case{Term: fmt.Sprintf("(EImg %s %s %s %s)", galBuilt(im.In, im.OSRelease), galLfs(im.In), galObs(im.Obs), galLics(lics)),
 				Class: class, Desc: map[string]any{"world": wd, "image": im}})
 		}
 		// the images map of GenerateIndexSBOM, in the order of the index manifest; the model sorts it
